@@ -773,3 +773,25 @@ def _tspan_lines(repo, ob, failure):
 
 
 GENERATORS.insert(0, ("C19.tspan.", _tspan_lines))
+
+
+def _comment_cdata_delimiters(repo, ob, failure):
+    """comments and CDATA sections of the output are correctly delimited whatever text flows into them:
+    the output must be accepted by an independent XML parser (expat)"""
+    cases = [('<svg><rect wh="5" _="a -- b"/></svg>', ()), ('<svg><rect wh="5" __="x--"/></svg>', ()),
+             ('<svg><rect wh="5" _="ends with -"/></svg>', ()), ('<svg><rect wh="5" _="a --- b"/></svg>', ()),
+             ('<svg><rect wh="5"/></svg>', ("--background", "x]]>y")),
+             ('<svg><config background="x]]&gt;y"/><rect wh="5"/></svg>', ()),
+             ('<svg><config font-family="a--b"/><rect wh="5" text="t"/></svg>', ("--debug",))]
+    for doc, args in cases:
+        r = run_svgdx(repo, doc, args=args)
+        if r["rc"] != 0:
+            continue
+        tree, err = _parse_xml(r["out"])
+        if tree is None:
+            return {"input": doc, "args": list(args), "observed": "output rejected by expat: %s" % err, "expected": "well-formed XML (comment text without '--', CDATA text without ']]>')"}
+    return None
+
+
+GENERATORS.insert(0, ("C02.comment.", _comment_cdata_delimiters))
+GENERATORS.insert(0, ("C02.cdata.", _comment_cdata_delimiters))
